@@ -8,7 +8,7 @@ props, rel, old, new = sys.argv[1].split(','), sys.argv[2], sys.argv[3], sys.arg
 cnt = int(sys.argv[5]) if len(sys.argv) > 5 else 1
 tmp = tempfile.mkdtemp(prefix='mut-')
 try:
-    subprocess.run('cp -r /repo/src /repo/Cargo.toml /repo/Cargo.lock %s/; mkdir -p %s/doc; cp /repo/doc/Cargo.toml %s/doc/; cp -r /repo/doc/src %s/doc/' % (tmp, tmp, tmp, tmp), shell=True, check=True)
+    subprocess.run('git -C /repo archive HEAD | tar -x -C %s' % tmp, shell=True, check=True)
     p = os.path.join(tmp, rel)
     s = open(p).read()
     if s.count(old) != cnt:
